@@ -34,7 +34,7 @@ manifest = {
         "guard": "verif",
         "enable": "go test -tags verif (the driver builds harness/checks against /repo with -tags verif on every call)",
         "baseline_off_cmd": "cd /repo && go test -mod=mod -json -vet=off -count=1 -timeout 25m ./...",
-        "source_commits": [hooks_commit],
+        "source_commits": [hooks_commit, "790dd41"],
         "add_only": True,
     },
     "engines": [
